@@ -99,9 +99,9 @@ func (w *World) canon(v ssa.Value, d int) string {
 	case *ssa.Field:
 		return w.canon(x.X, d+1) + "." + fieldName(x.X.Type(), x.Field)
 	case *ssa.IndexAddr:
-		return w.canon(x.X, d+1) + "[" + w.canon(x.Index, d+1) + "]"
+		return w.canon(x.X, d+1) + "[" + w.canonIndex(x.Index, d+1) + "]"
 	case *ssa.Index:
-		return w.canon(x.X, d+1) + "[" + w.canon(x.Index, d+1) + "]"
+		return w.canon(x.X, d+1) + "[" + w.canonIndex(x.Index, d+1) + "]"
 	case *ssa.Lookup:
 		return w.canon(x.X, d+1) + "[" + w.canon(x.Index, d+1) + "]"
 	case *ssa.UnOp:
@@ -582,4 +582,24 @@ func mulExpr(recv, a, b string) string {
 		a, b = b, a
 	}
 	return recv + ".Mul(" + a + ", " + b + ")"
+}
+
+// canonIndex prints an element index. The two spellings of "every element in
+// order" — `for _, e := range s` (go/ssa: i = phi(-1, i+1), element at i+1) and
+// `for i := 0; i < len(s); i++` (i = phi(0, i+1), element at i) — print alike.
+func (w *World) canonIndex(idx ssa.Value, d int) string {
+	if ph, ok := idx.(*ssa.Phi); ok && len(ph.Edges) == 2 {
+		for k := 0; k < 2; k++ {
+			c, isC := ph.Edges[k].(*ssa.Const)
+			bo, isB := ph.Edges[1-k].(*ssa.BinOp)
+			if !isC || !isB || bo.Op != token.ADD || bo.X != ssa.Value(ph) {
+				continue
+			}
+			one, isOne := bo.Y.(*ssa.Const)
+			if c.Value != nil && c.Value.ExactString() == "0" && isOne && one.Value != nil && one.Value.ExactString() == "1" {
+				return "(phi((φ + 1)|-1) + 1)"
+			}
+		}
+	}
+	return w.canon(idx, d)
 }
